@@ -174,6 +174,22 @@ func c02Corpus() map[string]string {
 			add("func g() {\n" + s1 + "\n" + s2 + "\n}")
 		}
 	}
+	// grammar-generated programs of deeper nesting (deterministic pseudo-random walk; more of them in the thorough tier)
+	{
+		nGen := 400
+		if os.Getenv("VERIF_TIER") == "thorough" {
+			nGen = 20000
+		}
+		g := &c02Gen{state: 0x9E3779B97F4A7C15}
+		for i := 0; i < nGen; i++ {
+			var sb strings.Builder
+			for k, ns := 0, 1+g.n(3); k < ns; k++ {
+				sb.WriteString(g.stmt(3))
+				sb.WriteString("\n")
+			}
+			add(strings.TrimSuffix(sb.String(), "\n"))
+		}
+	}
 	for _, s := range []string{
 		"f(a, b)(c)[d].e", "x = [1, 2, [3, 4]][2][0]", "m = {\"a\": 1, 2: [3], \"k\": {\"z\": nil}}", "g = (a, b) => a + b", "h = a => b => a * b",
 		"func f(a, ..) { return a }", "if a { b } else if c { d } else { e }", "for i = 0:10 { if i % 2 == 0 { continue }; println(i) }",
@@ -265,9 +281,94 @@ func TestVerifBoundedRoundTrip(t *testing.T) {
 		fmt.Printf("BOUNDED-KNOWN %s %s\n", id, known[id])
 	}
 	fmt.Printf("BOUNDED evaluations=%d distinct=%d exhaustive=false bound=%q\n", evals, accepted,
-		fmt.Sprintf("%d source texts (%d accepted by the parser): examples/*.gr, tests/*.gr, every ordered pair of the 18 binary operators in three nestings, every prefix/binary combination, 18 operand forms (if/for/lambda/function/call/index/literal/parenthesised) on both sides of 11 operators and in index/call/prefix/condition positions, every ordered pair of 32 statement forms on consecutive lines (top level and in a function body), 35 statement shapes; normal and compact mode; structure compared by fully parenthesised compact print and by a reflection dump of the tree that does not use the printer", len(corpus), accepted))
+		fmt.Sprintf("%d source texts (%d accepted by the parser): examples/*.gr, tests/*.gr, every ordered pair of the 18 binary operators in three nestings, every prefix/binary combination, 18 operand forms (if/for/lambda/function/call/index/literal/parenthesised) on both sides of 11 operators and in index/call/prefix/condition positions, every ordered pair of 32 statement forms on consecutive lines (top level and in a function body), 35 statement shapes, grammar-generated programs of nesting depth 3 (400 in the quick tier, 20000 in the thorough tier); normal and compact mode; structure compared by fully parenthesised compact print and by a reflection dump of the tree that does not use the printer", len(corpus), accepted))
 	if fails > 0 {
 		t.Fatalf("%d failures", fails)
+	}
+}
+
+// c02Gen: a small deterministic generator of programs from the expression / statement grammar.
+type c02Gen struct{ state uint64 }
+
+func (g *c02Gen) n(k int) int {
+	g.state ^= g.state << 13
+	g.state ^= g.state >> 7
+	g.state ^= g.state << 17
+	return int(g.state % uint64(k))
+}
+
+func (g *c02Gen) pick(xs ...string) string { return xs[g.n(len(xs))] }
+
+func (g *c02Gen) expr(d int) string {
+	if d <= 0 {
+		return g.pick("a", "b", "c", "1", "2.5", "\"s\"", "true", "nil", "x", "f(1)", "a[0]", "m.k")
+	}
+	switch g.n(14) {
+	case 0, 1, 2, 3:
+		op := g.pick("+", "-", "*", "/", "%", "==", "!=", "<", ">=", "&&", "||", "|", "&", "^", "<<", ">>")
+		if op == "+" {
+			// a parenthesised + on the right of a + is the recorded plus-chain finding: keep the right operand atomic
+			return g.operand(d-1) + " + " + g.expr(0)
+		}
+		return g.operand(d-1) + " " + op + " " + g.operand(d-1)
+	case 4:
+		return g.pick("-", "!", "~") + g.operand(d-1)
+	case 5:
+		return "f(" + g.expr(d-1) + ", " + g.expr(d-1) + ")"
+	case 6:
+		return g.operand(d-1) + "[" + g.expr(d-1) + "]"
+	case 7:
+		return "[" + g.expr(d-1) + ", " + g.expr(d-1) + "]"
+	case 8:
+		return "{" + g.expr(0) + ": " + g.expr(d-1) + "}"
+	case 9:
+		return "if " + g.expr(d-1) + " { " + g.expr(d-1) + " } else { " + g.expr(d-1) + " }"
+	case 10:
+		return g.pick("x => ", "(x, y) => ", "() => ") + g.expr(d-1)
+	case 11:
+		return "func(p) { " + g.expr(d-1) + " }"
+	case 12:
+		return g.operand(d-1) + "[" + g.expr(0) + ":" + g.pick("", g.expr(0)) + "]"
+	default:
+		return g.expr(d - 1)
+	}
+}
+
+// operand: an expression, parenthesised when it is not atomic (so that the intended structure is unambiguous)
+func (g *c02Gen) operand(d int) string {
+	e := g.expr(d)
+	if strings.ContainsAny(e, " ") {
+		return "(" + e + ")"
+	}
+	return e
+}
+
+// bareExpr: an expression used as a statement; one that starts with a prefix operator is left out (the recorded
+// prefix-operator-statement finding).
+func (g *c02Gen) bareExpr(d int) string {
+	for {
+		if e := g.expr(d); !strings.ContainsAny(e[:1], "-!~+") && !strings.HasPrefix(e, "(-") && !strings.HasPrefix(e, "(!") && !strings.HasPrefix(e, "(~") {
+			return e
+		}
+	}
+}
+
+func (g *c02Gen) stmt(d int) string {
+	switch g.n(9) {
+	case 0, 1, 2:
+		return g.pick("x", "y", "z") + " = " + g.expr(d)
+	case 3:
+		return g.bareExpr(d)
+	case 4:
+		return "if " + g.expr(d-1) + " {\n" + g.stmt(d-1) + "\n}"
+	case 5:
+		return "for i = 0:3 {\n" + g.stmt(d-1) + "\n}"
+	case 6:
+		return "func g" + g.pick("1", "2") + "(p, q) {\n" + g.stmt(d-1) + "\n" + g.bareExpr(d-1) + "\n}"
+	case 7:
+		return g.pick("x++", "y--", "println(" + g.expr(d-1) + ")")
+	default:
+		return g.pick("// note", "/* note */ ") + g.pick("", "x = "+g.expr(0))
 	}
 }
 
